@@ -180,6 +180,41 @@ def e_suppress_add(rng, tree, findings_now):
     return None
 
 
+UNLIKELY_IDS = ['nullPointer', 'uninitvar', 'memleak', 'zerodiv', 'resourceLeak', 'doubleFree', 'noSuchIdAtAll']
+
+
+def e_suppress_unmatched(rng, tree, findings_now):
+    """comment-only edit that adds an inline suppression matching nothing (or changes the id of an existing trailing
+    suppression) on a code line of a *source* file that carries no finding; no token moves. Headers are excluded:
+    an unmatched inline suppression in a header is dropped by a cached re-run (separate, listed defect)."""
+    busy = set((f.locs[0][0], f.locs[0][1]) for f in findings_now if f.locs)
+    cand = []
+    for rel, t in tree.files.items():
+        if rel.endswith('.h'):
+            continue
+        for i, l in enumerate(t.split('\n')):
+            st = l.strip()
+            if (rel, i + 1) in busy or not st or st.startswith(('#', '}', '{', '//', '/*')) or not st.endswith(';'):
+                continue
+            cand.append((rel, i))
+    if not cand:
+        return None
+    rel, i = rng.choice(cand)
+    lines = tree.files[rel].split('\n')
+    l = lines[i]
+    if ' // cppcheck-suppress ' in l:
+        l = l[:l.index(' // cppcheck-suppress ')]
+        kind = 'inline-suppress-unmatched-change'
+    else:
+        m = re.search(r'\s*/\* note \d+ \*/$', l)
+        if m:
+            l = l[:m.start()]
+        kind = 'inline-suppress-unmatched-add'
+    lines[i] = l + ' // cppcheck-suppress %s' % rng.choice(UNLIKELY_IDS)
+    tree.set(rel, '\n'.join(lines))
+    return (kind, 0, rel)
+
+
 def e_suppress_remove(rng, tree):
     cand = [(rel, i) for rel, t in tree.files.items() for i, l in enumerate(t.split('\n'))
             if ' // cppcheck-suppress ' in l]
@@ -268,9 +303,11 @@ def random_edit(rng, tree, findings_now):
             e = e_token(rng, tree, _pick_file(rng, tree, hdr))
         elif r < 0.72:
             e = e_comment(rng, tree, _pick_file(rng, tree, hdr))
-        elif r < 0.78:
+        elif r < 0.76:
             e = e_suppress_add(rng, tree, findings_now)
-        elif r < 0.82:
+        elif r < 0.80:
+            e = e_suppress_unmatched(rng, tree, findings_now)
+        elif r < 0.83:
             e = e_suppress_remove(rng, tree)
         elif r < 0.87:
             e = e_add_file(rng, tree)
